@@ -200,6 +200,7 @@ def run(run, rng):
         run.guard({'interrupted': True, 'seed': rng.getrandbits(32), 'n_lines': 6000, 'ngram': rng.choice([3, 4]), 'points': 16 if run.tier == 'quick' else 60}, check_interrupted, seconds=600)
     for i in range(N[run.tier]):
         case = c11.gen_case(rng)
+        case['save_sensitive'] = rng.random() < 0.3
         if i % 5 == 4:
             first = c11.gen_case(rng)
             for _ in range(30):
